@@ -43,6 +43,8 @@ var props = map[string]propSpec{
 	"C01": {Scenarios: []string{"csync"}},
 	"C02": {Scenarios: []string{"csync"}},
 	"C03": {Scenarios: []string{"bcast"}},
+	"C12": {Scenarios: []string{"stack"}},
+	"C18": {Scenarios: []string{"conc"}},
 	"C16": {Scenarios: []string{"once"}},
 	"C17": {Scenarios: []string{"ccall"}},
 	"C11": {Scenarios: []string{"promise"}},
